@@ -2,12 +2,13 @@ use crate::de::Error;
 
 /// Deserializes table values into enum variants.
 pub(crate) struct TableEnumDeserializer {
+    key: String,
     value: crate::Item,
 }
 
 impl TableEnumDeserializer {
-    pub(crate) fn new(value: crate::Item) -> Self {
-        TableEnumDeserializer { value }
+    pub(crate) fn new(key: String, value: crate::Item) -> Self {
+        TableEnumDeserializer { key, value }
     }
 }
 
@@ -55,14 +56,21 @@ impl<'de> serde::de::VariantAccess<'de> for TableEnumDeserializer {
     where
         T: serde::de::DeserializeSeed<'de>,
     {
+        let key = self.key;
         seed.deserialize(super::ValueDeserializer::new(self.value))
+            .map_err(|mut e: Self::Error| {
+                // the variant name is a key on the way to the offending value
+                e.add_key(key);
+                e
+            })
     }
 
     fn tuple_variant<V>(self, len: usize, visitor: V) -> Result<V::Value, Self::Error>
     where
         V: serde::de::Visitor<'de>,
     {
-        match self.value {
+        let key = self.key;
+        let result = match self.value {
             crate::Item::ArrayOfTables(values) => {
                 let values_span = values.span();
                 let tuple_values = values.values.into_iter().collect::<Vec<_>>();
@@ -155,7 +163,11 @@ impl<'de> serde::de::VariantAccess<'de> for TableEnumDeserializer {
                 format!("expected table, found {}", e.type_name()),
                 e.span(),
             )),
-        }
+        };
+        result.map_err(|mut e: Self::Error| {
+            e.add_key(key);
+            e
+        })
     }
 
     fn struct_variant<V>(
